@@ -71,6 +71,9 @@ Corrupt == /\ ~alive /\ ~corrupted /\ main.k = "doc"
 Next == (\E f \in Entries : Touch(f)) \/ Reset \/ SaveOpen \/ SaveWrite \/ SaveClose \/ SaveRename \/ Crash \/ ExitSave
         \/ Restart \/ Corrupt
 
+vars == <<mem, main, backup, pc, alive, loaded, warned, corrupted, justLoaded>>
+Spec == Init /\ [][Next]_vars
+
 \* the properties of the design
 MainComplete == corrupted \/ main.k \in {"absent", "doc"}
 LoadOK == justLoaded => /\ loaded = (IF main.k = "doc" THEN main.e ELSE {})
